@@ -94,6 +94,7 @@ def atomic(fmts):
 
 
 def build(tier):
+    P.contract()  # tabulated once here, inherited by every forked explorer
     hs = [Harness("atomic-save", atomic(["json", "pickle"]),
                   {"formats": ["json", "pickle"], "prior": "main absent/old x backup absent/stale "
                    "x temp absent/stale/garbage", "positions": f"every FS operation 0..{MAXOPS - 1}"
